@@ -23,6 +23,7 @@ EXPLANATION = (
     "the three 'dynamic input unavailable' predicates (amend time, defer time, report time) are compared as tables; "
     "ran_concurrently's orientation and the pruning of stop times are checked by def-use. Decides these clauses, not "
     "the race windows themselves."
+    ' Also: R-C03-9 the comparison after a command uses the hashes verified when the run started (stored on every path that lets the command start, never overridden, not filtered by the current state), amended inputs get their baseline when the request is accepted, read after the promoted hash jobs.'
 )
 ASSUMPTIONS = ["single-threaded event loop: a region without await is atomic", "SHA-256 collision resistance (C13)"]
 
